@@ -1328,6 +1328,8 @@ class Interp:
                 walk(c, v, 0)
             elif isinstance(v, Trace):
                 items.append((c, repr(v)))
+            elif self.path_sensitive and isinstance(v, Term):
+                items.append((c, repr(v)))          # uninterpreted values with identity (instants, addresses): different terms, different situations
             elif self.track_content and isinstance(v, (Iter, Seq)) and is_listed(v.items):
                 # lists known element by element: paths that built different lists stay apart
                 items.append((c, "listed:" + repr(v.items)))
@@ -1654,12 +1656,21 @@ class Interp:
             sp = str(t.get("span") or "")
             lst = st.cells.get("ghost:listed")
             bounded = isinstance(lst, Num) and lst.e.is_const() and lst.e.c == 1       # inside a walk over a listed (finite) iterator
-            if ((bb not in self._inloop(fr.body) and not getattr(fr, "in_loop", False)) or bounded) and sp.startswith(("stun-proto/", "stun-types/")):
+            here = bb not in self._inloop(fr.body)
+            if sp.startswith(("stun-proto/", "stun-types/")):
                 # (branches of expanded logging macros carry the macro's span and are not recorded)
-                for tb, s2, _ in out:
-                    p_ = s2.cells.get("ghost:path")
-                    if isinstance(p_, Trace):
-                        s2.cells["ghost:path"] = p_.add(("br", fr.id[-40:], bb, tb))
+                if (here and not getattr(fr, "in_loop", False)) or bounded:
+                    for tb, s2, _ in out:
+                        p_ = s2.cells.get("ghost:path")
+                        if isinstance(p_, Trace):
+                            s2.cells["ghost:path"] = p_.add(("br", fr.id[-40:], bb, tb))
+                elif here and fr.depth > 0:
+                    # a callee invoked from inside a loop: its own branches stay apart until it returns (the record is a
+                    # local of the frame and disappears with it; the return states are kept apart by their values)
+                    cn = fr.id + ":_path"
+                    for tb, s2, _ in out:
+                        p_ = s2.cells.get(cn)
+                        s2.cells[cn] = (p_ if isinstance(p_, Trace) else Trace()).add((bb, tb))
         return out
 
     def _inloop(self, body):
